@@ -20,6 +20,37 @@ def split_obs(got):
     return {'res': m.group(1), 'err': m.group(3), 'tr': m.group(5), 'g1': m.group(6), 'g2': m.group(7), 'gx': m.group(8)}
 
 
+def fold_bool_words(t):
+    """lower-case the words true/false outside string literals: the syntax tree of the model does not keep how a Boolean
+    literal was spelled (the printer writes it as written)"""
+    out = []
+    i, n = 0, len(t)
+    while i < n:
+        ch = t[i]
+        if ch in '"\'':
+            j = i + 1
+            while j < n:
+                if t[j] == ch:
+                    if j + 1 < n and t[j + 1] == ch:
+                        j += 2
+                        continue
+                    break
+                j += 1
+            out.append(t[i:j + 1])
+            i = j + 1
+        elif ch.isalpha() or ch == '_':
+            j = i
+            while j < n and (t[j].isalnum() or t[j] == '_'):
+                j += 1
+            w = t[i:j]
+            out.append(w.lower() if w.lower() in ('true', 'false') else w)
+            i = j
+        else:
+            out.append(ch)
+            i += 1
+    return ''.join(out)
+
+
 def run(ctx):
     rep = core.Report(ctx)
     if not vc.prepare(ctx, 'C06'):
@@ -43,7 +74,18 @@ def run(ctx):
         text = eg.render_program(stmts)
         pcases.append({'id': 'p%d' % i, 'text': text, 'line': 'pretty p%d %s' % (i, hexf(text))})
     impl, model = vc.run_cases(ctx, cases, timeout_ms=8000)
-    pimpl, _ = ctx.run_pair([c['line'] for c in pcases], model=False)
+    pimpl, pmodel = ctx.run_pair([c['line'] for c in pcases])
+    # model only: the bytes the pretty-printer model writes lex to the tokens of its token-level view (the decorated tree the
+    # theorems C06_pretty_* are about), and the model parser reads them back to the same instructions
+    ptie = {}
+    if pmodel is not None and os.path.exists(ctx.driver()):
+        import subprocess
+        tl = ''.join('prettytie %s %s\n' % (c['id'], hexf(c['text'])) for c in pcases)
+        pr = subprocess.run([ctx.driver()], input=tl.encode(), stdout=subprocess.PIPE, stderr=subprocess.DEVNULL)
+        for ln in pr.stdout.decode('latin-1').split('\n'):
+            if ln:
+                k, _, v = ln.partition(' ')
+                ptie[k] = v
     # second phase: listings of the original and of the pretty-printed text
     lines2 = []
     for c in pcases:
@@ -85,8 +127,25 @@ def run(ctx):
                 rep.violation('correspondence', {'property': 'C06', 'kind': 'model-vs-implementation', 'seed': ctx.seed, 'case': c['id'],
                                                  'literal': c['lit'].decode('latin-1'), 'literal_hex': c['lit'].hex(),
                                                  'implementation': (got or '')[:2000], 'model': (model.get(c['id']) or '')[:2000], 'line': c['line']})
-    n_pp = 0
+    n_pp = n_pmm = n_ptie = n_ptie_bad = 0
     for c in pcases:
+        if pmodel is not None:
+            gi, gm = pimpl.get(c['id']) or '', pmodel.get(c['id']) or ''
+            # a text the implementation prints must be printed byte for byte by the model (texts that do not parse are
+            # printed as far as the recovered tree goes by the implementation; the model answers parse-error for them)
+            if gi.startswith('ok ') and gm != 'parse-error' and fold_bool_words(unesc(gm).decode('latin-1')) != fold_bool_words(unesc(gi).decode('latin-1')):
+                n_pmm += 1
+                if n_pmm <= 3:
+                    rep.violation('correspondence', {'property': 'C06', 'kind': 'pretty-printer model-vs-implementation', 'seed': ctx.seed, 'case': c['id'],
+                                                     'input': c['text'].decode('latin-1'), 'implementation': gi[:2000], 'model': gm[:2000], 'line': c['line']})
+            t = ptie.get(c['id'])
+            if t is not None and t != 'parse-error':
+                n_ptie += 1
+                if t != 'tokens=agree readback=same':
+                    n_ptie_bad += 1
+                    if n_ptie_bad <= 3:
+                        rep.violation('correspondence', {'property': 'C06', 'kind': 'pretty-printer model: text vs token-level view', 'seed': ctx.seed, 'case': c['id'],
+                                                         'input': c['text'].decode('latin-1'), 'model': t, 'line': 'prettytie x %s' % hexf(c['text'])})
         if 'pretty' not in c:
             if not (pimpl.get(c['id']) or '').startswith('parse-error') and pimpl.get(c['id']) != 'empty':
                 pass
@@ -100,7 +159,7 @@ def run(ctx):
                                          'input': c['text'].decode('latin-1'), 'pretty': c['pretty'].decode('latin-1'),
                                          'listing_of_input': a, 'listing_of_pretty': b, 'line': c['line']})
     cov = {'evaluations': len(cases) + len(pcases), 'distinct_nontrivial': len(distinct) + n_pp,
-           'rule': 'literal values (booleans, strings over all bytes 1..255 with boosted quotes/newlines/backslashes, numbers with at most 6 significant digits spelled plain / with exponent / with leading dot / in hex / negated, nested arrays, code blocks over the live registry): g1 = literal; gx = str g1; g2 = call compile gx — the rendered g1 and g2 (instruction listings for code) must coincide, isEqualTo must hold, str must equal the expected text, the literal must denote the nearest single-precision value; the same run on the Lean model (str = model of to_string_sqf / reconstruct, compile = the C01 front-end model) must give the same observation; pretty printer: listing(pretty(text)) = listing(text)',
-           'samples': samples, 'oracle_failures': n_or, 'model_mismatches': n_mm, 'pretty_printed': n_pp, 'value_kinds': g.stats}
+           'rule': 'literal values (booleans, strings over all bytes 1..255 with boosted quotes/newlines/backslashes, numbers with at most 6 significant digits spelled plain / with exponent / with leading dot / in hex / negated, nested arrays, code blocks over the live registry): g1 = literal; gx = str g1; g2 = call compile gx — the rendered g1 and g2 (instruction listings for code) must coincide, isEqualTo must hold, str must equal the expected text, the literal must denote the nearest single-precision value; the same run on the Lean model (str = model of to_string_sqf / reconstruct, compile = the C01 front-end model) must give the same observation; pretty printer: listing(pretty(text)) = listing(text); the text must equal the text the Lean model of prettify writes byte for byte, and that text must lex to the token sequence of the decorated tree the C06_pretty theorems speak about',
+           'samples': samples, 'oracle_failures': n_or, 'model_mismatches': n_mm, 'pretty_printed': n_pp, 'pretty_model_mismatches': n_pmm, 'pretty_text_vs_token_view_checked': n_ptie, 'pretty_text_vs_token_view_differences': n_ptie_bad, 'value_kinds': g.stats}
     return rep.finish(cov, ['numbers outside the at-most-6-significant-digit class are not generated (the property restricts to it)',
                             'binary rounding of arbitrary floats is not modelled; the decimal class is exact in the model'])
